@@ -1,4 +1,6 @@
 import BSEModel.Compare
+import Batteries.Data.List.Perm
+import Mathlib.Data.List.Nodup
 /-! # C19 — comparison and difference tools agree with exact equality of the data -/
 namespace BSE.Props.C19
 open BSE BSE.Cmp
@@ -163,6 +165,45 @@ theorem tolerance_subset_is_not_pairing :
     equalBy tolR tolL1 tolL2 = true
       ∧ (perms tolL2).all (fun σ => !((tolL1.zip σ).all (fun p => tolR p.1 p.2))) = true := by
   decide +kernel
+
+/-- **with a tolerance: "equal" is a perfect matching whenever partners are unique.**  If no shell of either list is within
+tolerance of two shells of the other list (`Separated`; the counter-example above is exactly a violation of it) and neither list
+repeats a shell, then the code's answer — equal length and mutual subset — yields a one-to-one pairing: a function `f` with
+every shell `a` of the first list within tolerance of `f a`, and the images forming a permutation of the second list. -/
+theorem equalBy_is_matching {α} [Inhabited α] (R : α → α → Bool) (l1 l2 : List α)
+    (hn1 : l1.Nodup) (hn2 : l2.Nodup)
+    (hsep : ∀ b ∈ l2, ∀ a ∈ l1, ∀ a' ∈ l1, R a b = true → R a' b = true → a = a')
+    (h : equalBy R l1 l2 = true) :
+    ∃ f : α → α, (∀ a ∈ l1, R a (f a) = true) ∧ (l1.map f).Perm l2 := by
+  simp only [equalBy, Bool.and_eq_true, beq_iff_eq] at h
+  obtain ⟨⟨hlen, hsub⟩, _⟩ := h
+  have hex := (subsetBy_iff R l1 l2).1 hsub
+  let f : α → α := fun a => (l2.find? (R a)).getD default
+  have hf : ∀ a ∈ l1, f a ∈ l2 ∧ R a (f a) = true := by
+    intro a ha
+    obtain ⟨b, hb, hab⟩ := hex a ha
+    cases hfd : l2.find? (R a) with
+    | none =>
+      have := List.find?_eq_none.1 hfd b hb
+      rw [hab] at this
+      exact absurd rfl this
+    | some c =>
+      have hc := List.mem_of_find?_eq_some hfd
+      have hrc := List.find?_some hfd
+      simp only [f, hfd, Option.getD_some]
+      exact ⟨hc, hrc⟩
+  refine ⟨f, fun a ha => (hf a ha).2, ?_⟩
+  -- the images are pairwise different (a shell of the second list has at most one partner), lie in l2, and are as many as l2
+  have hnd : (l1.map f).Nodup := by
+    rw [List.nodup_map_iff_inj_on hn1]
+    intro a ha a' ha' heq
+    have heq : f a = f a' := heq
+    exact hsep (f a) (hf a ha).1 a ha a' ha' (hf a ha).2 (heq ▸ (hf a' ha').2)
+  have hsubset : l1.map f ⊆ l2 := by
+    intro x hx
+    obtain ⟨a, ha, rfl⟩ := List.mem_map.1 hx
+    exact (hf a ha).1
+  exact (List.subperm_of_subset hnd hsubset).perm_of_length_le (by simp [hlen])
 
 /-- non-vacuity / sign clause on concrete strings -/
 example : vecEq numVal 0 ["1.0", "-0.5"] ["1.00E+00", "-5.0e-1"] = true
